@@ -272,7 +272,7 @@ const API_2: [&str; 5] = ["leq", "lt", "geq", "gt", "eq"];
 fn api_bounds(len: usize) -> Vec<i64> {
     let l = len as i64;
     let mut v: Vec<i64> = (-3..=l + 3).collect();
-    v.extend([i64::MIN + l, i64::MIN + l + 1, i64::MAX - 1, i64::MAX]);
+    v.extend([i64::MIN, i64::MIN + 1, i64::MIN + l, i64::MIN + l + 1, i64::MAX - 1, i64::MAX]);
     v
 }
 
@@ -305,11 +305,14 @@ fn gen_list(t: &mut Tape, maxlen: usize, pool: &mut Vec<Fun>) -> Vec<Fun> {
 }
 
 pub fn run(ctx: &mut Ctx) -> Result<(), Violation> {
-    ctx.rule = "cases = (counting form, operand lists as truth-table functions on ids, bound). Exhaustive: every list of <= 3 operands drawn from the 16 functions of 2 variables (ids {0,1}) x every API bound in {-3..len+3, i64::MIN+len, i64::MIN+len+1, i64::MAX-1, i64::MAX} x aln/amn/exn; \
+    ctx.rule = "cases = (counting form, operand lists as truth-table functions on ids, bound). Exhaustive: every list of <= 3 operands drawn from the 16 functions of 2 variables (ids {0,1}) x every API bound in {-3..len+3, i64::MIN, i64::MIN+1, i64::MIN+len, i64::MIN+len+1, i64::MAX-1, i64::MAX} x aln/amn/exn; \
                 every pair of lists of <= 2 such operands x the five list-vs-list forms; the same lists through `[..] op n` text for the five operators with n in {0..len+2} plus leading-zero, 2^31, 2^32, 2^63-2, 2^63-1, 2^63, 2^64-2, 2^64-1 constants. \
                 Random: lists of <= 6 operands of <= 3 variables over ids 0..4 with repeated operands. Oracle: per assignment, the number of true operands (i128) compared with the bound / the other count. \
                 Non-trivial = a list of >= 2 operands with a repeated or compound (>= 2 variable) operand, or a bound outside 0..len; distinct by serialized case. Operand provenance: created in the environment through mk_choice (default), or - in a share of the random cases and in dedicated stages - plain values that belong to no environment / nodes of another environment (what BDD::<usize>::from(named) and the repository's own parser tests produce)."
         .to_string();
+    ctx.rule.push_str(" Wide stage: ");
+    ctx.rule.push_str(crate::wide::RULE);
+    ctx.rule.push_str(" Long lists: up to 13 (thorough 16) operands - literals, short cubes / clauses, small functions, repeated entries - with bounds at -1, 0, 1, len-1, len, len+1, i64::MIN, i64::MAX; list-vs-list forms when both lists together have <= 14 operands.");
     ctx.assume("API bounds are restricted to n with n +/- len inside i64 (the property's domain)");
     ctx.assume("language constants are restricted to values the syntax accepts (<= usize::MAX)");
 
@@ -438,10 +441,15 @@ pub fn run(ctx: &mut Ctx) -> Result<(), Violation> {
         crate::fun::with_operands(mode, || check_case(&c))
     });
     ctx.stage("random-lists", false, r)?;
+    let wc = ctx.tier.cases(3_000, 60_000);
+    crate::wide::stage_count(ctx, "wide-long-lists", wc)?;
     Ok(())
 }
 
 pub fn replay(case: &Value) -> Check {
+    if let Some(r) = crate::wide::replay(case) {
+        return r;
+    }
     match Case::from_json(case) {
         Some(c) => crate::fun::with_operands(crate::fun::case_operands(case), || check_case(&c)),
         None => Err(Violation::new("unreadable replay case", case.clone())),
